@@ -372,6 +372,23 @@ inline int main_(int argc, char **argv, const Harness &h) {
     return 0;
 }
 
+// VP_MAIN: the harness's main(). With VP_PREMAIN=1 in the environment the whole run happens BEFORE main(): from a dynamic initialiser at the
+// end of the harness's translation unit, i.e. after this unit's own globals but before the constructors of everything linked behind it
+// (the library's objects come last on the link line). A library that prepares state in a constructor, or lazily in a way that assumes
+// main() has been entered, is then called earlier than it expects - as from an application's own constructors or C++ static initialisers.
+inline int premain_run(const Harness &h) {
+    const char *e = getenv("VP_PREMAIN");
+    if (!e || *e != '1') return 0;
+    std::string raw = read_file("/proc/self/cmdline");
+    std::vector<std::string> av; { std::string cur; for (char c : raw) { if (c == 0) { av.push_back(cur); cur.clear(); } else cur += c; } if (!cur.empty()) av.push_back(cur); }
+    std::vector<char *> argv; for (auto &x : av) argv.push_back(&x[0]);
+    stats().notes["premain"] = "this target ran the whole harness before main() was entered (from a static initialiser of the harness)";
+    exit(main_((int)argv.size(), argv.data(), h));
+}
+#define VP_MAIN(RUN, REPLAY) \
+    static int vp_premain_done_ = vp::premain_run({RUN, REPLAY}); \
+    int main(int argc, char **argv) { (void)vp_premain_done_; return vp::main_(argc, argv, {RUN, REPLAY}); }
+
 // ---------------------------------------------------------------- memory helpers
 // Exact-size heap block: ASan red zones sit directly before and after it.
 struct Block {
